@@ -110,6 +110,9 @@ class Timeline:
         self.ncompressed = 0   # compressed messages delivered (> 1: the inflater context was carried over)
         self.compressed_due = []   # due offsets of the compressed messages among ``events``
         self.saw = set()       # feature tags for coverage accounting
+        self.frame_ends = []   # end offsets of the complete frames judged well-formed (incl. a valid close frame)
+        self.idle = set()      # offsets at which the receiver is between frames AND outside any data message
+        self.open_at = set()   # ends of non-final text fragments after which a multi-octet UTF-8 sequence is open
 
     # -- what is expected after the first k octets -----------------------------------------------
     def due(self, k):
@@ -237,6 +240,8 @@ def _judge(role, data, pmce, tl, inflater):
             tl.failure = Failure("payload", "compressed-text-invalid-utf8", doom, NEVER)
 
     while i < n:
+        if msg is None:
+            tl.idle.add(i)
         if n - i < 2:
             return incomplete()
         b0, b1 = data[i], data[i + 1]
@@ -330,6 +335,7 @@ def _judge(role, data, pmce, tl, inflater):
             if not complete:
                 return incomplete()
             tl.frames += 1
+            tl.frame_ends.append(frame_end)
             if op == OP_PING:
                 tl.events.append((frame_end, ("ping", payload)))
                 tl.saw.add("ping-inside" if msg is not None else "ping")
@@ -380,6 +386,9 @@ def _judge(role, data, pmce, tl, inflater):
         if not complete:
             return incomplete()
         tl.frames += 1
+        tl.frame_ends.append(frame_end)
+        if not fin and msg["op"] == OP_TEXT and msg["tail"] and doom is None:
+            tl.open_at.add(frame_end)
         if fin:
             if doom is not None:
                 tl.failure = Failure("payload", "compressed-text-invalid-utf8", doom, frame_end)
@@ -402,6 +411,8 @@ def _judge(role, data, pmce, tl, inflater):
         i = frame_end
     if msg is not None:
         incomplete()
+    else:
+        tl.idle.add(i)
 
 
 # -------------------------------------------------------------------------------------------------
